@@ -278,12 +278,25 @@ def gen_def(seed, idx, collide=False, overlap=False):
             r["tags"] = ["v2"]
         if rng.random() < 0.3:
             r["meta"] = {"owner": "qa", "n": [1]}
+        # machine-level `always` / `after` next to (or without) a machine-level `on`: the root's eventless transition is
+        # stored under `on[""]` by the Python API, next to the root's own `on` map
+        root_always_guard = None
+        if not inv_hosts and not root_parallel and rng.random() < 0.4:
+            root_always_guard = g.guard()
+            r["always"] = {"target": rng.choice(top_names), "guard": root_always_guard}
+            D["features"].append("root-always" + ("+on" if r["on"] else ""))
+        if not root_parallel and rng.random() < 0.25:
+            r["after"] = {str(rng.choice([300, 700])): {"target": rng.choice(top_names), "actions": g.actions()}}
+            D["features"].append("root-after")
         D["root"] = r
         D["features"].append("root-parallel" if root_parallel else "root-props")
     if rng.random() < 0.6:
         D["context"] = {"count": 0, "k": "v", "nested": {"xs": [1, 2]}}
     D["logic"] = {"actions": list(g.acts.values()), "guards": list(g.guards.values()), "services": list(g.svcs.values())}
     D["gv"] = {x["ref"]: rng.random() < 0.7 for x in D["logic"]["guards"]}
+    if D["root"] and D["root"]["always"] is not None:
+        # a machine-level eventless transition whose guard holds fires after every event (up to the bound): mostly off
+        D["gv"][D["root"]["always"]["guard"]] = rng.random() < 0.35
     evs = sorted({t["event"] for t in D["transitions"]} | {e for p, n in allp if n["on"] for e in n["on"]} | ({"ESC"} if D["root"] and D["root"]["on"] else set()))
     ops = [["send", rng.choice(evs + ["NOPE"])] for _ in range(rng.randint(5, 9))]
     for p, n in allp:
